@@ -130,7 +130,7 @@ Ltac same_lists :=
 Lemma sinv_step s i : sinv s -> sinv (sstep s i).
 Proof.
   intros Hs. pose proof Hs as (Hq & Hp & Hh & Hpr & Hd & T0 & T1 & Tb & Tc & Tl).
-  destruct i as [c r| | |c|c|c|c| |]; cbn [sstep].
+  destruct i as [c r| | |c|c|c|c|c| |]; cbn [sstep].
   - (* SEnq *)
     unfold sinv, out_events in *; cbn [s_q s_tokens s_cap s_loop s_parked s_handed].
     split; [now apply qinv_enqueue|]. split; [exact Hp|]. split; [exact Hh|]. split.
@@ -199,6 +199,21 @@ Proof.
     { destruct (alookup c (s_parked s)) eqn:E2; [|reflexivity]. exfalso. apply (Hd c); congruence. }
     pose proof (length_aremove c (s_handed s) Hh Hin) as Len. unfold out_events in *.
     apply sinv_done; try assumption; try lia.
+    + now apply nodup_aremove.
+    + intros c'. rewrite Hpr. destruct (N.eq_dec c c') as [->|Hne].
+      * rewrite E. split; [auto|]. intros _. right. discriminate.
+      * rewrite alookup_aremove_other by exact Hne. split; [auto|]. intros [X|X]; [congruence|exact X].
+    + apply alookup_aremove_same.
+    + intros c'. destruct (N.eq_dec c c') as [->|Hne].
+      * rewrite alookup_aremove_same. congruence.
+      * rewrite alookup_aremove_other by exact Hne. apply Hd.
+  - (* SClientFail: same release, the stream is also marked closed *)
+    destruct (alookup c (s_handed s)) as [r|] eqn:E; [|exact Hs].
+    assert (Hin : In c (akeys (s_handed s))) by (apply alookup_keys; congruence).
+    assert (HnP : alookup c (s_parked s) = None).
+    { destruct (alookup c (s_parked s)) eqn:E2; [|reflexivity]. exfalso. apply (Hd c); congruence. }
+    pose proof (length_aremove c (s_handed s) Hh Hin) as Len. unfold out_events in *.
+    apply (sinv_done (mkSst (s_q s) (s_tokens s) (s_cap s) (s_loop s) (s_parked s) (s_handed s) (c :: s_closed s) (s_stopped s) (s_done_calls s)) c); cbn [s_q s_tokens s_cap s_loop]; try assumption; try lia.
     + now apply nodup_aremove.
     + intros c'. rewrite Hpr. destruct (N.eq_dec c c') as [->|Hne].
       * rewrite E. split; [auto|]. intros _. right. discriminate.
